@@ -8,6 +8,7 @@ pub mod codec;
 pub mod indexfile;
 pub mod distro;
 pub mod sync;
+pub mod naming;
 
 pub fn make(name: &str) -> Option<Box<dyn Suite>> {
     match name {
@@ -15,6 +16,7 @@ pub fn make(name: &str) -> Option<Box<dyn Suite>> {
         "indexfile" => Some(Box::new(indexfile::IndexFile::new())),
         "distro" => Some(Box::new(distro::Distro::new())),
         "sync" => Some(Box::new(sync::Sync::new())),
+        "naming" => Some(Box::new(naming::Naming::new())),
         _ => None,
     }
 }
